@@ -28,6 +28,9 @@ static void run(const std::vector<std::string>& ops)
     else if (t[0] == "sall") v.setAll();
     else if (t[0] == "uall") v.unsetAll();
     else if (t[0] == "set") v[N(1)].set(N(2), N(3));
+    else if (t[0] == "sidx") v[N(1)][N(2)] = (N(3) != 0);            // reference::operator[] (vector<bool>::reference) assignment
+    else if (t[0] == "rbit") v[N(1)].reset(N(2));                    // reset(n)
+    else if (t[0] == "ablkc") { const BV& cv = v; v[N(1)] = cv[N(2)]; }   // assignment from a const reference proxy
     else if (t[0] == "flip") v[N(1)].flip(N(2));
     else if (t[0] == "bset") v[N(1)].set();
     else if (t[0] == "breset") v[N(1)].reset();
@@ -62,6 +65,29 @@ static void run(const std::vector<std::string>& ops)
     s += "]c" + std::to_string(cv.count()) + " m";
     if (cv.count() != total) flags += "!cnt";
     for (int j = 0; j < bs; ++j) { if (j) s += ","; s += std::to_string(cv.countmasked(j)); }
+    // the mutable proxy / mutable iterator / mutable back() read the same bits; constructors reproduce the same vector
+    {
+      std::size_t bi = 0; std::vector<bool> flat;
+      for (typename BV::iterator it = v.begin(); it != v.end(); ++it, ++bi) {
+        if (bi >= cv.size()) { flags += "!mitlen"; break; }
+        for (int j = 0; j < bs; ++j) {
+          bool b = cv[(int) bi].test(j); flat.push_back(b);
+          if ((*it).test(j) != b || v[(int) bi].test(j) != b || bool(v[(int) bi][j]) != b || bool((*it)[j]) != b) flags += "!mref";
+        }
+        if (v[(int) bi].count() != cv[(int) bi].count() || v[(int) bi].any() != cv[(int) bi].any() || v[(int) bi].all() != cv[(int) bi].all()
+            || v[(int) bi].none() != cv[(int) bi].none() || !(v[(int) bi] == cv[(int) bi]) || (v[(int) bi] != cv[(int) bi])) flags += "!mq";
+      }
+      if (bi != cv.size()) flags += "!mitlen";
+      if (cv.size() > 0 && !(v.back() == cv.back())) flags += "!mback";
+      BV fromflat(flat); BV sized((int) cv.size()); BV filled((int) cv.size(), true);
+      if (fromflat.size() != cv.size() || sized.size() != cv.size() || filled.size() != cv.size()) flags += "!ctor";
+      else for (std::size_t i = 0; i < cv.size(); ++i)
+        if (!(fromflat[(int) i] == cv[(int) i]) || sized[(int) i].any() || !filled[(int) i].all()) { flags += "!ctor"; break; }
+      if (sized.count() != 0 || filled.count() != cv.size() * bs) flags += "!ctorcnt";
+      std::ostringstream os; os << cv; std::string exp;
+      for (std::size_t i = 0; i < cv.size(); ++i) { exp += "("; for (int j = 0; j < bs; ++j) exp += cv[(int) i].test(j) ? "1" : "0"; exp += ")  "; }
+      if (os.str() != exp) flags += "!print";
+    }
     // iteration and back()
     std::size_t k = 0;
     for (typename BV::const_iterator it = cv.begin(); it != cv.end(); ++it, ++k) if (k >= cv.size() || !(*it == cv[(int) k])) { flags += "!it"; break; }
